@@ -118,7 +118,8 @@ def arrSub : Arr Int → Arr Int → Arr Int
 def andRows (a b : List (List Bool)) : List (List Bool) := List.zipWith (List.zipWith (· && ·)) a b
 def notRows (a : List (List Bool)) : List (List Bool) := a.map (·.map (!·))
 
-/-- lines 480–490 on `N × W` boolean matrices `true`, `positive` -/
+/-- lines 480–490 on `N × W` boolean matrices `true`, `positive` (a 1-d array of `N` entries, which
+only occurs with `axis=None`, is written as `N × 1`) -/
 def countsOf (axis : Option Nat) (W : Nat) (tr po : List (List Bool)) : CMArr :=
   let negative := notRows po
   let tp := andRows po tr
@@ -146,7 +147,7 @@ def indicatorCore (multiclass : Bool) (avg : Average) (axis : Option Nat) (tr po
       if tw = 0 then throw .index                 -- `true[:, 0]`
       if pw = 0 then throw .index                 -- `positive[:, 0]`
       checkRows trows.length prows.length
-      pure (countsOf none 1 [trows.map (·.headD false)] [prows.map (·.headD false)])
+      pure (countsOf none 1 (trows.map fun r => [r.headD false]) (prows.map fun r => [r.headD false]))
     | _, _ => throw .value
   else if !multiclass && avg != .binary then
     match tr, po with
@@ -158,7 +159,7 @@ def indicatorCore (multiclass : Bool) (avg : Average) (axis : Option Nat) (tr po
     match tr, po with
     | .b1 t, .b1 p => do
       checkRows t.length p.length
-      pure (countsOf none 1 [t] [p])              -- average = binary here, so axis = None
+      pure (countsOf none 1 (t.map ([·])) (p.map ([·])))   -- average = binary here, so axis = None
     | .b2 t tw, .b2 p pw => do
       checkRows t.length p.length
       if tw = pw then pure (countsOf axis tw t p)
@@ -190,8 +191,13 @@ def effectiveVocab (cfgVocab : Option Vocab) (order : List Label) : Vocab :=
 def setCell (row : List Bool) (j : Nat) : Except ErrKind (List Bool) :=
   if j < row.length then .ok (row.set j true) else .error .index
 
+/-- `result[i][vocab[elem]] = True` -/
+def vocabStep (v : Vocab) (row : List Bool) (e : Label) : Except ErrKind (List Bool) := do
+  let j ← v.lookup e
+  setCell row j
+
 def applyVocabRow (v : Vocab) (elems : List Label) : Except ErrKind (List Bool) :=
-  elems.foldlM (fun row e => do let j ← v.lookup e; setCell row j) (List.replicate v.length false)
+  elems.foldlM (vocabStep v) (List.replicate v.length false)
 
 /-- the rows to iterate: a flat sequence holds one label per example -/
 def rowsFor (multioutput : Bool) : Rows → Except ErrKind (List (List Label))
@@ -377,6 +383,44 @@ def mergeStates (c : Cfg) (states : List (Option CMArr)) : Except ErrKind (Optio
   match states.filterMap id with
   | [] => pure none
   | s :: rest => some <$> rest.foldlM CMArr.iadd s
+
+/-- one accumulator fed batch by batch, starting from `create_state()` -/
+def feedApi (c : Cfg) (bs : List Batch) : Except ErrKind (Option CMArr) :=
+  bs.foldlM (updateState c) none
+
+/-- every shard has its own accumulator; all of them are handed to one `merge_states` -/
+def runSharded (c : Cfg) (shards : List (List Batch)) : Except ErrKind (Option CMArr) := do
+  let sts ← shards.mapM (feedApi c)
+  mergeStates c sts
+
+/-- a merge plan: a leaf is the state of shard `i`, a node is `merge_states` of its children in order -/
+inductive MTree where
+  | leaf (i : Nat)
+  | node (ts : List MTree)
+  deriving Repr, Inhabited
+
+mutual
+def evalTree (c : Cfg) (states : List (Option CMArr)) : MTree → Except ErrKind (Option CMArr)
+  | .leaf i => match states[i]? with
+    | some s => .ok s
+    | none => .error .index
+  | .node ts => do
+    let ss ← evalTrees c states ts
+    mergeStates c ss
+def evalTrees (c : Cfg) (states : List (Option CMArr)) : List MTree → Except ErrKind (List (Option CMArr))
+  | [] => .ok []
+  | t :: ts => do
+    let s ← evalTree c states t
+    let ss ← evalTrees c states ts
+    pure (s :: ss)
+end
+
+def MTree.leaves : MTree → List Nat
+  | .leaf i => [i]
+  | .node ts => leavesList ts
+where leavesList : List MTree → List Nat
+  | [] => []
+  | t :: ts => t.leaves ++ leavesList ts
 
 /-! ## results -/
 
